@@ -2,7 +2,7 @@
 from __future__ import annotations
 
 from .. import pipegen
-from ..coqlit import Err, Ok, cbool, cstr
+from ..coqlit import Err, Ok, cbool, clist, cstr
 from ..symfuncs import canon
 from . import c02
 
@@ -13,18 +13,25 @@ ANCHORS = [("pipefunc/lazy.py", ["_LazyFunction", "construct_dag", "evaluate_laz
            ("pipefunc/_pipeline/_base.py", ["Pipeline.run", "Pipeline._run", "Pipeline._get_func_args",
                                             "_update_all_results", "_execute_func", "Pipeline._current_cache"]),
            ("pipefunc/_pipefunc.py", ["PipeFunc.__call__", "PipeFunc._evaluate_lazy", "PipeFunc.output_picker",
-                                      "_default_output_picker"])]
+                                      "_default_output_picker"]),
+           ("pipefunc/_pipeline/_cache.py", ["compute_cache_key", "get_result_from_cache", "update_cache", "create_cache"])]
 RULE = ("the pipelines of C02 (diamonds, tuple-output nodes, shared parameters, defaults, bound values, renames) built "
         "with lazy=True x every output x every arg combination + random cuts / surplus / missing keywords x "
         "full_output x with/without construct_dag(); observed: call log before evaluate, value and log after one "
-        "and after two evaluate_lazy calls, task graph (nodes relabelled in allocation order); non-trivial = "
+        "and after two evaluate_lazy calls, task graph (nodes relabelled in allocation order) + functions / tuple "
+        "members returning None and diamonds over them + SEQUENCES of 2-3 requests to one lazy pipeline object "
+        "(inside one construct_dag() block, or outside with cache=True functions; same / changed root values, "
+        "surplus / missing keywords, evaluation in between); non-trivial = "
         ">= 2 needed functions or a tuple output; distinct by (pipeline, output, keywords, flags)")
-ASSUMPTIONS = list(c02.ASSUMPTIONS) + ["one run per construct_dag() context (its SimpleCache is fresh and never hits)"]
+ASSUMPTIONS = list(c02.ASSUMPTIONS) + ["LRU cache of a lazy pipeline below its max_size (no eviction)"]
 TRUSTED = ["Model/Lazy.v mirrors pipefunc/lazy.py and the lazy branches of _base.py by hand; tie = per-run "
            "differential execution", "harness/symfuncs.py (structural bodies, call log)"]
 
 
 def emit_case(c) -> str:
+    if c.get("kind") == "seq":
+        reqs = clist([f"({cstr(o)}, {pipegen.alist_lit(kw)}, {cbool(full)}, {cbool(now)})" for o, kw, full, now in c["reqs"]])
+        return f"(CSeq {pipegen.pipeline_lit(c['p'])} {cbool(c['dag'])} {reqs})"
     return (f"(CLazy {pipegen.pipeline_lit(c['p'])} {cstr(c['o'])} {pipegen.alist_lit(c['kw'])} "
             f"{cbool(c['full'])} {cbool(c['dag'])})")
 
@@ -35,8 +42,61 @@ def _val(x):
     return canon(x)
 
 
+def _graph_obs(tg):
+    ids = sorted(tg.graph.nodes)
+    pos = {i: k for k, i in enumerate(ids)}
+    labels = []
+    for i in ids:
+        lf = tg.mapping[i]
+        name = getattr(lf.func, "__name__", None)
+        labels.append(name if name is not None and not lf.args else "pick:" + str(lf.args[1]))
+    return [labels, sorted([pos[a], pos[b]] for a, b in tg.graph.edges)]
+
+
+def _run_seq(c):
+    """ONE lazy pipeline object, several requests (inside one construct_dag() block when c['dag'])."""
+    import contextlib
+
+    from pipefunc.lazy import construct_dag, evaluate_lazy
+
+    try:
+        b = pipegen.build(c["p"], lazy=True)          # a fresh object: its cache must start empty
+    except Exception:  # noqa: BLE001
+        return ["bad-case"]
+    pl, log = b.pipeline, b.log
+    results, tg = [], None
+    with (construct_dag() if c["dag"] else contextlib.nullcontext()) as tg:
+        for o, kw, full, now in c["reqs"]:
+            try:
+                r = pl.run(o, full_output=full, kwargs=dict(kw))
+            except Exception as e:  # noqa: BLE001
+                results.append(Err(e))
+                continue
+            results.append(("ok", r))
+            if now:
+                try:
+                    evaluate_lazy(r)
+                except Exception:  # noqa: BLE001
+                    pass
+    log0 = log.read()
+    values = []
+    for r in results:
+        if isinstance(r, Err):
+            values.append(None)
+            continue
+        try:
+            values.append(Ok(_val(evaluate_lazy(r[1]))))
+        except Exception as e:  # noqa: BLE001
+            values.append(Err(e))
+    statuses = [r if isinstance(r, Err) else "ok" for r in results]
+    return [statuses, log0, values, log.read(), _graph_obs(tg) if tg is not None else None]
+
+
 def run_impl(c):
     from pipefunc.lazy import construct_dag, evaluate_lazy
+
+    if c.get("kind") == "seq":
+        return _run_seq(c)
 
     try:
         b = pipegen.build_cached(c["p"], slot="lazy", lazy=True)
@@ -81,8 +141,12 @@ def run_impl(c):
 def generate(rng, tier, mult):
     n_pipes = (40 if tier == "quick" else 1000) * mult
     cases = []
-    for _ in range(n_pipes):
-        pd = pipegen.gen_pipeline(rng)
+    n_diamonds = (8 if tier == "quick" else 100) * mult
+    for k in range(n_pipes + n_diamonds):
+        if k < n_diamonds:      # a node whose value is None shared by >= 2 consumers
+            pd = pipegen.gen_none_diamond(rng)
+        else:
+            pd = pipegen.gen_pipeline(rng, none_prob=rng.choice([0.0, 0.0, 0.2, 0.4]))
         if rng.random() < 0.5:
             q = list(pd["funcs"])
             rng.shuffle(q)
@@ -91,17 +155,86 @@ def generate(rng, tier, mult):
             for tag, kw in c02.calls_for(rng, pd, o, budget=2 if tier == "quick" else 4):
                 cases.append({"p": pd, "o": o, "kw": kw, "full": rng.random() < 0.35, "dag": rng.random() < 0.5,
                               "tag": tag})
+        if k >= n_diamonds and rng.random() < 0.5:
+            cases += _seq_cases(rng, pd, 2)
+    for _ in range((12 if tier == "quick" else 150) * mult):
+        cases += _seq_cases(rng, _gen_tuple_share(rng), 3)
+    return cases
+
+
+def _gen_tuple_share(rng):
+    """A tuple-output function whose members are consumed one at a time by different functions."""
+    k = rng.choice([2, 2, 3])
+    outs = [f"o{j}" for j in range(k)]
+    roots = rng.sample(pipegen.ROOTS, rng.randint(1, 2))
+    funcs = [{"name": "f0", "outs": outs, "params": [[r, r] for r in roots], "sigd": {}, "defs": {}, "bound": {}}]
+    funcs.append({"name": "f1", "outs": ["o5"], "params": [[outs[0], outs[0]]], "sigd": {}, "defs": {}, "bound": {}})
+    p2 = [[outs[1], outs[1]], ["o5", "o5"]]
+    if rng.random() < 0.4:
+        p2.append([rng.choice(pipegen.ROOTS), "q"])
+    funcs.append({"name": "f2", "outs": ["o6"], "params": p2, "sigd": {}, "defs": {}, "bound": {}})
+    if rng.random() < 0.5:
+        funcs.append({"name": "f3", "outs": ["o7", "o8"], "params": [["o6", "o6"], [outs[-1], outs[-1]]],
+                      "sigd": {}, "defs": {}, "bound": {}})
+    rng.shuffle(funcs)
+    return {"funcs": funcs}
+
+
+def _seq_cases(rng, pd, n):
+    """Sequences of requests to one lazy pipeline object: same root values (shared nodes through the caches), a
+    changed root value, a surplus / missing keyword, full_output, evaluation in between."""
+    try:
+        pl = pipegen.build_cached(pd, slot="gen").pipeline
+        roots_of = {o: list(pl.root_args(o)) for o in pipegen.outputs_of(pd)}
+    except Exception:  # noqa: BLE001
+        return []
+    outs = pipegen.outputs_of(pd)
+    tuple_members = [o for f in pd["funcs"] if len(f["outs"]) > 1 for o in f["outs"]]
+    cases = []
+    for _ in range(n):
+        dag = rng.random() < 0.6
+        q = {"funcs": [dict(f, cached=(rng.random() < (0.2 if dag else 0.75))) for f in pd["funcs"]]}
+        m = rng.choice([2, 2, 3])
+        reqs = []
+        for j in range(m):
+            if j == 0 and tuple_members and rng.random() < 0.4:
+                o = rng.choice(tuple_members)
+            elif j > 0 and rng.random() < 0.25:
+                o = reqs[0][0]                      # the same output again
+            else:
+                o = rng.choice(outs)
+            kw = [[n_, "v_" + n_] for n_ in roots_of[o]]
+            if rng.random() < 0.15:                  # an argument combination with supplied intermediates
+                try:
+                    kw = [[n_, "v_" + n_] for n_ in rng.choice(sorted(pl.arg_combinations(o)))]
+                except Exception:  # noqa: BLE001
+                    pass
+            r = rng.random()
+            if r < 0.1 and kw:
+                kw[rng.randrange(len(kw))][1] = "other"          # another value: no sharing for what depends on it
+            elif r < 0.17:
+                kw.append(["junk", "v_junk"])
+            elif r < 0.24 and kw:
+                kw.pop(rng.randrange(len(kw)))
+            rng.shuffle(kw)
+            reqs.append([o, kw, rng.random() < 0.2, rng.random() < 0.3])
+        cases.append({"kind": "seq", "p": q, "dag": dag, "reqs": reqs})
     return cases
 
 
 def nontrivial_key(c):
     fs = c["p"]["funcs"]
+    if c.get("kind") == "seq":
+        return ("seq", c["p"], c["dag"], c["reqs"])
     if len(fs) >= 2 or any(len(f["outs"]) > 1 for f in fs):
         return (c["p"], c["o"], c["kw"], c["full"], c["dag"])
     return None
 
 
 def distribution(c):
+    if c.get("kind") == "seq":
+        return {"kind": "seq" + ("-dag" if c["dag"] else "-lru"), "nreq": len(c["reqs"]),
+                "cached": sum(1 for f in c["p"]["funcs"] if f.get("cached"))}
     return {"nfuncs": len(c["p"]["funcs"]), "tag": c.get("tag", ""), "flags": f"{'F' if c['full'] else ''}{'D' if c['dag'] else ''}"}
 
 
@@ -116,6 +249,13 @@ def shrink(c):
         d = dict(c)
         d["p"] = {"funcs": fs[:j] + fs[j + 1:]}
         out.append(d)
+    if c.get("kind") == "seq":
+        for j in range(len(c["reqs"])):
+            if len(c["reqs"]) > 1:
+                d = dict(c)
+                d["reqs"] = c["reqs"][:j] + c["reqs"][j + 1:]
+                out.append(d)
+        return out
     for j in range(len(c["kw"])):
         d = dict(c)
         d["kw"] = c["kw"][:j] + c["kw"][j + 1:]
